@@ -363,6 +363,13 @@ impl Subscription {
 
 impl Drop for Subscription {
     fn drop(&mut self) {
+        // A subscription the conductor has already closed (close_all_resources, channel endpoint error) was removed
+        // from the conductor's registry there, so nothing is left to release. The conductor drops its cached handle
+        // while its own mutex is held: locking it again here would dead-lock.
+        if self.is_closed() {
+            return;
+        }
+
         let list = self.image_list.take();
 
         self.conductor
